@@ -246,35 +246,100 @@ theorem accepted_iff (G : Codec) (d : Dechunker) (c : Chunk) (l : Bool) :
         · simp [hs, ho', hg, hs']; intro h; exact h.symm
         · simp [hs, ho', hg]
 
-/-- For ANY sequence of chunks (reordered, duplicated, foreign, interleaved) fed to a
-dechunker, the sequence number only counts accepted chunks: it grows by exactly the
-number of `ok` results. -/
-theorem feed_seq_counts_accepted (G : Codec) : ∀ (chunks : List Chunk) (d : Dechunker),
-    (feed G d chunks).1.seq + ((feed G d chunks).2.filter (fun r => r = .errCodec)).length ≥ d.seq ∧
-    (feed G d chunks).1.seq ≤ d.seq + chunks.length := by
-  intro chunks
-  induction chunks with
-  | nil => intro d; simp [feed]
+/-! ### arbitrary chunk sequences
+
+`feed_taken` is the general statement behind "foreign or out-of-order chunks are rejected":
+for ANY list of chunks (reordered, duplicated, foreign, corrupted) fed to ANY dechunker, the
+chunks that get past the checks (`taken`) have consecutive sequence numbers continuing the
+dechunker's, all carry its stream id, and the file is the old file followed by exactly
+their decoded bytes, in order. -/
+
+
+def passed : WRes → Bool
+  | .ok _ => true
+  | .errCodec => true
+  | _ => false
+
+def decoded (G : Codec) (c : Chunk) : Bytes :=
+  match c.data with
+  | none => []
+  | some e => (G.dec e).1
+
+/-- chunks that passed the stream-id and sequence checks, in arrival order -/
+def taken (G : Codec) : Dechunker → List Chunk → List Chunk
+  | _, [] => []
+  | d, c :: rest =>
+    let r := writeChunk G d c
+    if passed r.2 then c :: taken G r.1 rest else taken G r.1 rest
+
+theorem writeChunk_cases (G : Codec) (d : Dechunker) (c : Chunk) :
+    (passed (writeChunk G d c).2 = true ∧ (d.sid = "" ∨ d.sid = c.sid) ∧ c.seq = d.seq + 1 ∧
+      (writeChunk G d c).1 = { sid := c.sid, seq := d.seq + 1, file := d.file ++ decoded G c }) ∨
+    (passed (writeChunk G d c).2 = false ∧ (writeChunk G d c).1.seq = d.seq ∧ (writeChunk G d c).1.file = d.file ∧
+      ((writeChunk G d c).1.sid = d.sid ∨ (d.sid = "" ∧ (writeChunk G d c).1.sid = c.sid))) := by
+  unfold writeChunk
+  by_cases hs : d.sid ≠ "" ∧ d.sid ≠ c.sid
+  · right; simp [hs, passed]
+  · have hs' : d.sid = "" ∨ d.sid = c.sid := by
+      by_cases h : d.sid = ""
+      · exact Or.inl h
+      · by_cases h' : d.sid = c.sid
+        · exact Or.inr h'
+        · exact absurd ⟨h, h'⟩ hs
+    by_cases ho : c.seq ≠ d.seq + 1
+    · right
+      simp only [hs, if_false, if_pos ho, passed]
+      refine ⟨trivial, trivial, trivial, ?_⟩
+      rcases hs' with h | h
+      · exact Or.inr ⟨h, trivial⟩
+      · exact Or.inl h.symm
+    · left
+      have ho' : c.seq = d.seq + 1 := by simpa using ho
+      cases hd : c.data with
+      | none => simp [hs, ho', passed, decoded, hd, hs']
+      | some e =>
+        by_cases hg : (G.dec e).2 = true <;> simp [hs, ho', hg, passed, decoded, hd, hs']
+
+theorem feed_taken (G : Codec) : ∀ (cs : List Chunk) (d : Dechunker),
+    (taken G d cs).map (·.seq) = List.range' (d.seq + 1) (taken G d cs).length ∧
+    (feed G d cs).1.file = d.file ++ ((taken G d cs).map (decoded G)).flatten ∧
+    (feed G d cs).1.seq = d.seq + (taken G d cs).length ∧
+    (d.sid ≠ "" → ∀ c ∈ taken G d cs, c.sid = d.sid) := by
+  intro cs
+  induction cs with
+  | nil => intro d; simp [taken, feed]
   | cons c rest ih =>
     intro d
-    have hstep : (writeChunk G d c).1.seq = d.seq ∨ (writeChunk G d c).1.seq = d.seq + 1 := by
-      unfold writeChunk
-      by_cases hs : d.sid ≠ "" ∧ d.sid ≠ c.sid
-      · simp [hs]
-      · by_cases ho : c.seq ≠ d.seq + 1
-        · simp [hs, ho]
-        · have ho' : c.seq = d.seq + 1 := by simpa using ho
-          right
-          cases hd : c.data with
-          | none => simp [hs, ho']
-          | some e => by_cases hg : (G.dec e).2 = true <;> simp [hs, ho', hg]
-    have := ih (writeChunk G d c).1
-    simp only [feed, List.length_cons]
-    constructor
-    · have h1 := this.1
-      simp only [List.filter_cons]
-      split <;> simp <;> omega
-    · omega
+    obtain ⟨i1, i2, i3, i4⟩ := ih (writeChunk G d c).1
+    rcases writeChunk_cases G d c with ⟨hp, hsid, hseq, hst⟩ | ⟨hp, hq, hf, hsid⟩
+    · simp only [taken, hp, if_true, feed, List.map_cons, List.length_cons, List.flatten_cons]
+      rw [hst] at i1 i2 i3 i4 ⊢
+      simp only at i1 i2 i3 i4
+      refine ⟨?_, ?_, ?_, ?_⟩
+      · rw [i1, hseq, List.range'_succ]
+      · rw [i2]; simp [List.append_assoc]
+      · rw [i3]; omega
+      · intro hne x hx
+        rcases List.mem_cons.1 hx with rfl | hx'
+        · rcases hsid with h | h
+          · exact absurd h hne
+          · exact h.symm
+        · have hcs : c.sid = d.sid := by
+            rcases hsid with h | h
+            · exact absurd h hne
+            · exact h.symm
+          have := i4 (by rw [hcs]; exact hne) x hx'
+          rw [this, hcs]
+    · have hp' : passed (writeChunk G d c).2 = false := hp
+      simp only [taken, hp', Bool.false_eq_true, if_false, feed]
+      rw [hq] at i1 i3
+      rw [hf] at i2
+      refine ⟨i1, i2, i3, ?_⟩
+      intro hne x hx
+      rcases hsid with h | ⟨h, _⟩
+      · have := i4 (by rw [h]; exact hne) x hx
+        rw [this, h]
+      · exact absurd h hne
 
 theorem lookup_erase_self (l : List (String × Dechunker)) (k : String) : lookup (erase l k) k = none := by
   induction l with
